@@ -329,10 +329,12 @@ func (g *Graph) Guards(target Point) []Guard {
 			w.Run(g.Entry())
 			if !reach {
 				// vetoing edge `pol` disconnects target => edge pol is mandatory
+				var as []Guard
 				for _, a := range Atoms(c, pol == 0) {
 					a.Site = c
-					out = append(out, a)
+					as = append(as, a)
 				}
+				out = append(out, expandAtoms(as, 0)...)
 			}
 		}
 	}
@@ -382,4 +384,31 @@ func Atoms(e ast.Expr, pol bool) []Guard {
 		}
 	}
 	return []Guard{{Cond: e, Polarity: pol}}
+}
+
+// PredicateExpander, when set, maps a call of a repo function whose body is the single statement
+// `return <bool expr>` to that expression with the parameters replaced by the call's arguments
+// (nil otherwise).  Guards uses it to look through predicate helpers: `if canMerge(a, b) {`
+// guards its body by the conjuncts of canMerge's expression.
+var PredicateExpander func(call *ast.CallExpr) ast.Expr
+
+func expandAtoms(as []Guard, depth int) []Guard {
+	if PredicateExpander == nil || depth > 2 {
+		return as
+	}
+	var out []Guard
+	for _, a := range as {
+		if call, ok := ast.Unparen(a.Cond).(*ast.CallExpr); ok {
+			if e := PredicateExpander(call); e != nil {
+				sub := Atoms(e, a.Polarity)
+				for i := range sub {
+					sub[i].Site = a.Site
+				}
+				out = append(out, expandAtoms(sub, depth+1)...)
+				continue
+			}
+		}
+		out = append(out, a)
+	}
+	return out
 }
